@@ -185,7 +185,7 @@ fn one_case(run: &Run, case: u64) {
 
 pub fn run(tier: Tier, replay: Option<Value>) -> i32 {
     let run = Run::new("C12", "exploration", tier, replay);
-    run.par_cases(tier.pick(400, 6000), super::threads(), |c| one_case(&run, c));
+    run.par_cases(tier.pick(400, 30000), super::threads(), |c| one_case(&run, c));
     run.finish(
         "generated trees over names with multi-byte characters and siblings extending one another ('/a','/ab','/a.b','/a b','/é','/éa','/é.b','/日','/日本',...), depth <= 4; listing: S over EVERY entry of the tree plus non-existent paths (children, and names extended by 'é'/'0'): iter_entries(version, S) must equal the entries of the full listing that are S or lie under S by whole components, in order and unmodified; restoring: S over every directory: no error, everything under dest/S identical (bytes, mtime ns, mode, owner) to the same subtree of a full restore, and outside S nothing but the ancestor directories of S. Non-trivial = tree has a non-empty directory with a multi-byte name or a sibling extending another name.",
         &["full listing and full restore are the reference (their own correctness is C01/C11)"],
